@@ -12,6 +12,8 @@
 //	aac-adts             AudioSpecificConfig <-> ADTS header for the values ADTS can carry; ASC <-> RTMP header
 //	sdp                  sdp.Pack output read by lal and by the reference RFC 4566/6184/7798/3640 reader
 //	                     (sdp_test.go)
+//	avpacket2rtmp-config in-band / SDP-announced sets and ADTS headers reach the RTMP side as sequence
+//	                     headers with the same bytes (remux_test.go)
 //
 // Deliberately NOT asserted (the property does not state it):
 //   - HEVC dimensions under a conformance window (never generated; lal reports the coded size)
@@ -112,7 +114,7 @@ func classifyAvcDim(c AvcDimCase) (bool, []string) {
 func TestAvcSpsDimensions(t *testing.T) {
 	pbt.Run(t, pbt.Spec[AvcDimCase]{
 		ID: "C19", Name: "avc-sps-dimensions", Gen: genAvcDim, Run: runAvcDim, Classify: classifyAvcDim,
-		Quick: 6000, Thorough: 60000,
+		Quick: 12000, Thorough: 60000,
 	})
 }
 
@@ -180,7 +182,7 @@ func classifyHevcDim(c HevcDimCase) (bool, []string) {
 func TestHevcSpsDimensions(t *testing.T) {
 	pbt.Run(t, pbt.Spec[HevcDimCase]{
 		ID: "C19", Name: "hevc-sps-dimensions", Gen: genHevcDim, Run: runHevcDim, Classify: classifyHevcDim,
-		Quick: 4000, Thorough: 40000,
+		Quick: 8000, Thorough: 40000,
 	})
 }
 
@@ -371,7 +373,7 @@ func classifyAvcSeq(c AvcSeqCase) (bool, []string) {
 func TestAvcSeqHeader(t *testing.T) {
 	pbt.Run(t, pbt.Spec[AvcSeqCase]{
 		ID: "C19", Name: "avc-seqheader", Gen: genAvcSeq, Run: runAvcSeq, Classify: classifyAvcSeq,
-		Quick: 2500, Thorough: 25000,
+		Quick: 5000, Thorough: 25000,
 	})
 }
 
@@ -520,7 +522,7 @@ func classifyHevcSeq(c HevcSeqCase) (bool, []string) {
 func TestHevcSeqHeader(t *testing.T) {
 	pbt.Run(t, pbt.Spec[HevcSeqCase]{
 		ID: "C19", Name: "hevc-seqheader", Gen: genHevcSeq, Run: runHevcSeq, Classify: classifyHevcSeq,
-		Quick: 2000, Thorough: 20000,
+		Quick: 4000, Thorough: 20000,
 	})
 }
 
@@ -723,7 +725,7 @@ func classifyFraming(c FramingCase) (bool, []string) {
 func TestNaluFraming(t *testing.T) {
 	pbt.Run(t, pbt.Spec[FramingCase]{
 		ID: "C19", Name: "nalu-framing", Gen: genFraming, Run: runFraming, Classify: classifyFraming,
-		Quick: 4000, Thorough: 30000,
+		Quick: 8000, Thorough: 30000,
 	})
 }
 
@@ -882,6 +884,6 @@ func classifyAac(c AacCase) (bool, []string) {
 func TestAacAdts(t *testing.T) {
 	pbt.Run(t, pbt.Spec[AacCase]{
 		ID: "C19", Name: "aac-adts", Gen: genAac, Run: runAac, Classify: classifyAac,
-		Quick: 3000, Thorough: 20000,
+		Quick: 5000, Thorough: 20000,
 	})
 }
